@@ -147,8 +147,8 @@ impl PartitionReplicatorActor {
             self.buffered_writes.queue.map.first_key_value()
         {
             let from_seq = *self.buffered_writes.next();
-            let to_seq = oldest_buffered_seq - 1;
-            let gap_size = oldest_buffered_seq - from_seq;
+            let to_seq = oldest_buffered_seq.saturating_sub(1);
+            let gap_size = oldest_buffered_seq.saturating_sub(from_seq);
             let wait_time = oldest_write
                 .reply_senders
                 .first()
@@ -335,8 +335,15 @@ impl PartitionReplicatorActor {
                     append.first_partition_sequence,
                     append.last_partition_sequence,
                 );
-                self.buffered_writes
-                    .progress_to(append.last_partition_sequence + 1);
+                // Writes buffered for a sequence that is now taken lost against this one
+                for (_, skipped) in self
+                    .buffered_writes
+                    .progress_to(append.last_partition_sequence + 1)
+                {
+                    for reply in skipped.reply_senders {
+                        reply.tx.send(Err(WriteError::SequenceConflict));
+                    }
+                }
 
                 // Buffer events for potential broadcast when confirmed
                 // Convert partition sequences to 1-indexed versions for the confirmation system
@@ -637,6 +644,7 @@ impl Message<PartitionSyncResponse> for PartitionReplicatorActor {
 
                     let tx_id = *commit.transaction_id();
                     let confirmation_count = commit.confirmation_count();
+                    let first_partition_sequence = first.partition_sequence;
                     let tx = Transaction::new(
                         first.partition_key,
                         first.partition_id,
@@ -657,7 +665,12 @@ impl Message<PartitionSyncResponse> for PartitionReplicatorActor {
                     )
                     .unwrap()
                     .with_transaction_id(tx_id)
-                    .with_confirmation_count(confirmation_count);
+                    .with_confirmation_count(confirmation_count)
+                    // Like any replicated write it may only be applied at the sequence the
+                    // coordinator assigned
+                    .expected_partition_sequence(ExpectedVersion::from_next_version(
+                        first_partition_sequence,
+                    ));
                     match self.write_transaction(tx).await {
                         Ok(append) => {
                             debug!(
